@@ -190,7 +190,7 @@ CLAIMS["C02"] = (
     "bounded exhaustive enumeration of convex problems x all applicable solver routes x independent reference implementations, compared through theorems of convexity",
     "11 convex families x intercept on/off x 5 designs (n>p, n=p, n<p, duplicated column, orthogonal) x 2 targets x alpha fractions x "
     "mixing / weights / layout variants; every applicable skglm route (AndersonCD subdiff / fixpoint / p0=1, GramCD greedy / cyclic / "
-    "cyclic+acc, FISTA, ProxNewton subdiff / fixpoint, GroupBCD, MultiTaskBCD, PDCD_WS) and a reference (scikit-learn, celer, HiGHS LP) "
+    "cyclic+acc, FISTA, ProxNewton subdiff / fixpoint, GroupBCD, MultiTaskBCD, PDCD_WS) and a reference (scikit-learn, celer, HiGHS LP, scaled-Lasso alternation for sqrt-Lasso) "
     "solve the same documented objective: each converged route's recomputed violation must be within its margin, and F(w) - F(v) "
     "<= violation * ||w - v||_1 must hold against the reference solution and every other route; coefficients must agree when "
     "the problem is strongly convex.",
